@@ -215,7 +215,9 @@ impl Builtin for Times {
     fn destructure(&self, rvalue: Obj, lhs: Vec<Option<Obj>>) -> NRes<Vec<Obj>> {
         match (rvalue, few2(lhs)) {
             (Obj::Num(r), Few2::Two(Some(Obj::Num(a)), None)) => {
-                if (&r % &a).is_nonzero() {
+                if !a.is_nonzero() {
+                    Err(NErr::value_error("* can't destructure with a zero factor".to_string()))
+                } else if (&r % &a).is_nonzero() {
                     Err(NErr::value_error("* had remainder".to_string()))
                 } else {
                     let k = Obj::Num(r.div_floor(&a));
@@ -223,7 +225,9 @@ impl Builtin for Times {
                 }
             }
             (Obj::Num(r), Few2::Two(None, Some(Obj::Num(a)))) => {
-                if (&r % &a).is_nonzero() {
+                if !a.is_nonzero() {
+                    Err(NErr::value_error("* can't destructure with a zero factor".to_string()))
+                } else if (&r % &a).is_nonzero() {
                     Err(NErr::value_error("* had remainder".to_string()))
                 } else {
                     let k = Obj::Num(r.div_floor(&a));
